@@ -254,6 +254,7 @@ def run(run):
         box['w%d' % i] = (-2, 2)
         box['f%d' % i] = (-20, 20)
     rep = enga.AReport(run, box=box)
+    rep.definedness = True
     run.assume('formalisation: truth y(t) = kernel(y0, w t, f t, t); INS y^(t) = kernel(y^0, (w + eps dw) t, (f + eps df) t, t) with y^0 the state whose correction by eps x0 is y0; candidate error x(t) = x0 + t (F x0 + B_gyro dw + B_accel df) from the real system_matrices(y0); defect = eps^1 t^1 coefficient of correct_pva(y^(t), eps x(t)) - y(t), per unit direction of x0, dw, df and per state component',
                'correct_pva is applied in its first-order form (I + [phi x]), exact to the order compared; exact real arithmetic; finite filter time steps (0.1..2 s) are not used: t is formal',
                'domain: |lat| <= 80, |pitch| <= 80 deg, |V| <= 300 m/s per axis, altitude 0..20 km, |w| <= 3 rad/s, |f| <= 30 m/s^2; WGS-84 constants as exact rationals of their doubles',
